@@ -155,7 +155,7 @@ class Polyline:
         cls.validate(data)
 
         return cls(
-            v=np.array(data["vertices"], dtype=cls.POSITION_DTYPE),
+            v=np.array(data["vertices"], dtype=cls.POSITION_DTYPE).reshape(-1, 3),
             is_closed=data["isClosed"],
         )
 
